@@ -63,22 +63,36 @@ def REQUIRED_REACH(tier):
 
 # -- symbolic file system ---------------------------------------------------------------------------------
 class FS:
-    def __init__(self, bound):
-        self.flags = {}  # path -> SymBool "exists initially / created by an adversary before we look"
+    """Symbolic file system.  A path that the code under test did not create may exist initially or be created by
+    another process at any moment: every *observation* of its existence gets a fresh symbolic boolean, monotone in
+    time (once seen, it stays).  `bound` limits how many distinct foreign paths can ever exist."""
+
+    def __init__(self, bound, races=True):
+        self.flags = {}  # path -> latest existence flag (SymBool / False)
+        self.history = {}  # path -> list of flags in observation order
         self.created = []  # paths created by the code under test (in order)
         self.bound = bound
-        self.lookups = 0
+        self.races = races
+        self.attempts = 0
 
     def exists(self, path):
         path = str(path)
         if path in self.created:
             return True
-        if path not in self.flags:
-            if len(self.flags) >= self.bound:
-                self.flags[path] = False
-            else:
-                self.flags[path] = vx.boolean(f"exists_{len(self.flags)}")
-        return self.flags[path]
+        hist = self.history.setdefault(path, [])
+        if not hist and len(self.history) > self.bound:
+            hist.append(False)
+        elif hist and (not self.races or hist[-1] is False and len(self.history) > self.bound):
+            hist.append(hist[-1])
+        elif hist and not vx.is_sym(hist[-1]):
+            hist.append(hist[-1])
+        else:
+            f = vx.boolean(f"exists_{list(self.history).index(path)}_{len(hist)}")
+            if hist:
+                vx.assume(vx.implies(hist[-1], f), "files created by others are not deleted")
+            hist.append(f)
+        self.flags[path] = hist[-1]
+        return hist[-1]
 
 
 def _install_fs(p, fs):
@@ -92,7 +106,10 @@ def _install_fs(p, fs):
     def mkdir(self, mode=0o777, parents=False, exist_ok=False):
         if not str(self).startswith(PREFIX):
             return real_mkdir(self, mode, parents, exist_ok)
-        # atomic test-and-create; an adversary may have created it just before (that is what the flag stands for)
+        # atomic test-and-create; another process may have created it just before (that is what a fresh flag stands for)
+        fs.attempts += 1
+        if fs.attempts > 4 * fs.bound + 8:
+            raise RecursionError("create_output_directory makes no progress")
         if bool(fs.exists(self)):
             if exist_ok:
                 return
@@ -123,14 +140,21 @@ def directory(k, custom):
         fs = FS(bound=k)
         _install_fs(p, fs)
         p.attr(oo, "datetime", _Clock(), "opaque clock token")
-        got = oo.create_output_directory(PREFIX + "/out", custom_dir_name="my_" if custom else None)
+        try:
+            got = oo.create_output_directory(PREFIX + "/out", custom_dir_name="my_" if custom else None)
+        except RecursionError:
+            got = None
     lab = f"k={k},custom={int(custom)}"
+    vx.prove(f"C19/dir/terminates/{lab}", got is not None)
+    if got is None:
+        return
     g = str(got)
+    # the directory handed out was created by this very call (an existing one — even one that appeared a moment ago — is never adopted)
     vx.prove(f"C19/dir/created_by_call/{lab}", fs.created == [g])
-    # it did not exist when this call's mkdir succeeded: its existence flag is false on this path
+    # it did not exist when this call's mkdir succeeded: its last observed existence flag is false on this path
     vx.prove(f"C19/dir/fresh/{lab}", vx.implies(True, ~fs.flags[g]) if vx.is_sym(fs.flags.get(g)) else fs.flags.get(g) is False)
     vx.prove(f"C19/dir/inside_parent/{lab}", g.startswith(PREFIX + "/out/" + ("my_" if custom else "run_") + "DATE"))
-    vx.prove(f"C19/dir/terminates/{lab}", len(fs.flags) <= k + 1)
+    vx.prove(f"C19/dir/bounded_attempts/{lab}", len(fs.history) <= k + 2)
 
 
 def two_calls():
@@ -196,7 +220,7 @@ def writer(which):
     data = np.arange(6.0).reshape(2, 3)
     folder = pathlib.Path(PREFIX + "/run")
     with Patch() as p:
-        fs = FS(bound=3)
+        fs = FS(bound=3, races=False)
         _install_fs(p, fs)
         rec = _Rec(fs)
         _install_writers(p, rec)
@@ -290,7 +314,7 @@ def save_files():
 
     folder = pathlib.Path(PREFIX + "/run")
     with Patch() as p:
-        fs = FS(bound=2)
+        fs = FS(bound=2, races=False)
         _install_fs(p, fs)
         rec = _Rec(fs)
         _install_writers(p, rec)
@@ -351,4 +375,29 @@ def replay(oid, kwargs, model, data):
             for f in os.listdir(tmp):
                 os.remove(os.path.join(tmp, f))
             os.rmdir(tmp)
+    if data["fn"] in ("directory", "two_calls"):
+        # a concurrent start: another process creates the candidate directory between this call's checks and its mkdir
+        import pyxel.outputs.outputs as oo
+
+        tmp = tempfile.mkdtemp(prefix="vx_c19_")
+        real_mkdir = pathlib.Path.mkdir
+        state = {"raced": False}
+
+        def racing_mkdir(self, mode=0o777, parents=False, exist_ok=False):
+            if str(self).startswith(tmp) and self.name.startswith("run_") and not state["raced"]:
+                state["raced"] = True
+                real_mkdir(self, mode, True, True)  # the other process wins the race for this name
+                (self / "other_run.txt").write_text("belongs to the other run")
+            return real_mkdir(self, mode, parents, exist_ok)
+
+        pathlib.Path.mkdir = racing_mkdir
+        try:
+            got = oo.create_output_directory(tmp)
+        finally:
+            pathlib.Path.mkdir = real_mkdir
+        shared = (got / "other_run.txt").exists()
+        import shutil
+
+        shutil.rmtree(tmp, ignore_errors=True)
+        return shared, {"returned": got.name, "directory_already_used_by_a_concurrent_run": shared}
     return False, {}
